@@ -153,6 +153,10 @@ def shard(sh):
                     got = mask_option(dump or '', par.cur_top)
                     if got != want:
                         st.violation('later-item-applied-or-earlier-lost:%s' % label, script, want, got)
+                    elif dump != 'dump ' + dump_sec(store, 0):
+                        # the item in which the invocation failed: what was stored before it stays, a refused value is never stored
+                        # (no element that no callback produced), a value refused by its validation is the last one stored
+                        st.violation('failing-item-state:%s' % label, script, 'dump ' + dump_sec(store, 0), dump or '')
                 if len(st.samples) < 1 and failed and len(res.events) >= 3:
                     st.samples.append({'schema_callbacks': sch.spec() if isinstance(mask, tuple) else [SLOTS[j] for j in range(len(SLOTS)) if mask >> j & 1], 'text': trace.text_of(words),
                                        'failing_invocation': k, 'expected_log': exp, 'expected_rc': want_rc})
@@ -310,8 +314,15 @@ def main():
     # deprecated / dropped options keep their callbacks: the value is converted and validated before it is dropped
     D5 = Schema('K5', [Opt('int', 'd', 'D', 5, 'pv'), Opt('int', 'dx', 'DX', 5, 'pv'), Opt('int', 'dl', 'LDX', [b'1'], 'pv'), Opt('int', 'z', '', 3, 'v')])
     confs.append((D5, D5, [], 0))
+    # pointer values, scalar and list: the object a parse callback makes is stored, released when replaced, never half-stored
+    K8 = Schema('K8', [Opt('ptr', 'q', '', None, 'pf'), Opt('ptr', 'ql', 'L', None, 'pf'), Opt('int', 'z', '', 3, 'v')])
     Nk = 4 if quick else 6
     shards = []
+    a8 = ['q', 'ql', '=', '+=', '{', '}', ',', 'a', 'z']
+    inner, frontier = trace.viable_prefixes(K8, 0, a8, 3)
+    shards.append(([(K8, K8, [], 0, a8)], 0, inner, dl))
+    for ch in engine.chunks(frontier, 2):
+        shards.append(([(K8, K8, [], 0, a8)], 8 if quick else 9, ch, dl))
     for conf in confs:
         alpha = S.alphabet_for(conf[0])
         inner, frontier = trace.viable_prefixes(conf[0], conf[3], alpha, 2)
@@ -322,8 +333,7 @@ def main():
                  shard, shards, configurations=len(confs))
     for N in Ns[1:]:
         main_phase(N)       # the deeper bounds last: everything above has run when the deadline cuts them short
-    ck.assumptions = ['validation calls: the log is compared after collapsing consecutive identical calls (same option, same count, same last value)',
-                      'after a failing invocation the option of the item in which it happened is not compared']
+    ck.assumptions = ['validation calls: the log is compared after collapsing consecutive identical calls (same option, same count, same last value)']
     ck.finish('schema variant (subset of 7 callback slots) x E1 token sequence x index of the failing invocation; non-trivial = distinct (expected log, verdict)')
 
 
